@@ -28,7 +28,7 @@ def shards(tier):
 def gates(c, tier):
     out = []
     for k in ("mode:drain", "mode:pending", "refused:client", "refused:server", "refused-with-pending-bytes", "second-final-response-refused",
-              "refused-in:BINDING", "refused-in:CLOSED", "refused-in:OPENED", "refused-in:BEFORE_OPEN", "accepted-server-response"):
+              "refused-in:BINDING", "refused-in:CLOSED", "refused-in:OPENED", "refused-in:BEFORE_OPEN", "accepted-server-response", "failing-send"):
         if c.get(k, 0) == 0:
             out.append(f"never observed {k}")
     for m in ("bind_response", "extended_response", "entry", "reference", "done"):
@@ -63,6 +63,32 @@ def finish(pair, mode):
             d.out_stream += d.sess.data_to_send()
         vio += [(k + ":" + d.role, w) for k, w in decode_out_stream(d.out_stream, d.expected_stream)]
     return vio
+
+
+def failing_sends(pair, acc):
+    """Send calls that raise while the message is being encoded (unencodable text). The exception class is not judged
+    (type-invalid input, DESIGN 7.10); the outgoing byte stream must be exactly as it was."""
+    out = []
+    for d in (pair.c, pair.s):
+        s = d.sess
+        before = s.data_to_send()
+        d.out_stream += before
+        ids = sorted(d.model.ip) or [1]
+        calls = ([lambda: s.search_request("dc=x", attributes=["cn", "bad\udc80"]), lambda: s.extended_request("1.2.\ud800"), lambda: s.bind_simple("cn=\udfff", "pw")]
+                 if d.role == "client" else
+                 [lambda: s.search_result_reference(ids[0], ["ldap://ok", "ldap://\ud800"]), lambda: s.extended_response(ids[0], diagnostics_message="\udfff"),
+                  lambda: s.search_result_entry(ids[0], "cn=\ud800", [])])
+        for fn in calls:
+            try:
+                fn()
+                return out  # accepted after all: nothing to judge, and the model is out of step - stop here
+            except Exception:
+                acc.count("failing-send")
+            leaked = s.data_to_send()
+            if leaked:
+                out.append((f"failed-send-left-bytes:{d.role}", f"a {d.role} send call that raised while encoding left {len(leaked)} bytes queued: {leaked[:32].hex()}"))
+                return out
+    return out
 
 
 def run_concrete(steps, mode):
@@ -133,6 +159,8 @@ def run_shard(ctx: Ctx, acc: Acc):
             if vio:
                 bad = vio
                 break
+        if not bad and i % 5 == 0:
+            bad = failing_sends(pair, acc)
         if not bad:
             bad = finish(pair, mode)
         _account(acc, pair, mode)
